@@ -99,10 +99,20 @@ def run(ctx):
     # ---- Spectrum.to : exact wavelength-unit changes from TLC -----------------------------------------------------------------
     for c in cases[1:]:
         e = exp[c['id']]
-        s = sp.real_spectrum(lentil, c['s'])
+        # the spectrum is built on caller-owned float arrays which a second spectrum shares (two bands on one grid)
+        w_arr = np.array([float(sp.rf(x)) for x in c['s']['w']])
+        v_arr = np.array([float(sp.rf(x)) for x in c['s']['v']])
+        w_keep, v_keep = w_arr.copy(), v_arr.copy()
+        vu_ = None if c['s']['vu'] == 'none' else c['s']['vu']
+        s = r.Spectrum(w_arr, v_arr, waveunit=sp.UNIT_OF[c['s']['e']], valueunit=vu_)
+        twin = r.Spectrum(w_arr, v_arr, waveunit=sp.UNIT_OF[c['s']['e']], valueunit=vu_)
         before = s.integrate(method='trapz')
         v0 = np.array(s.value, copy=True)
         s.to(c['u2'])
+        if not (np.array_equal(w_arr, w_keep) and np.array_equal(v_arr, v_keep) and np.array_equal(twin.wave, w_keep) and np.array_equal(twin.value, v_keep)):
+            ctx.violation({'kind': 'to-changed-the-callers-arrays', 'density': c['s']['vu'] != 'none'},
+                          {'spectrum': c['s'], 'to': c['u2']}, case=None)
+            continue
         ew = np.array([float(sp.rf(x)) for x in e['w']])
         ev = np.array([float(sp.rf(x)) for x in e['v']])
         sig = {'kind': 'to-wave', 'density': c['s']['vu'] != 'none', 'from': sp.UNIT_OF[c['s']['e']], 'to': c['u2']}
@@ -187,6 +197,19 @@ def run(ctx):
                     ctx.violation({'kind': 'planck-units', 'waveunit': u, 'valueunit': vu}, {'T': T, 'expected': e, 'observed': rad}, case=None)
                 if not np.allclose(exi, np.pi * rad, rtol=1e-12, atol=0):
                     ctx.violation({'kind': 'exitance-is-pi-radiance', 'waveunit': u, 'valueunit': vu}, {'T': T}, case=None)
+        # wavelengths given as integer arrays (an arange grid) are the same wavelengths (lists are refused outright: TypeError)
+        for u, wi in (('angstrom', [4000, 5000, 7000, 12000, 50000]), ('nm', [400, 700, 9000, 20000])):
+            for vu in FU:
+                ref_f = r.planck_radiance(np.array(wi, dtype=float), T, waveunit=u, valueunit=vu)
+                for form, wv in (('int64', np.array(wi, dtype=np.int64)), ('int32', np.array(wi, dtype=np.int32))):
+                    try:
+                        got = np.asarray(r.planck_radiance(wv, T, waveunit=u, valueunit=vu), dtype=float)
+                        ex_ = np.asarray(r.planck_exitance(wv, T, waveunit=u, valueunit=vu), dtype=float)
+                        ok = np.allclose(got, ref_f, rtol=1e-12, atol=0) and np.allclose(ex_, np.pi * ref_f, rtol=1e-12, atol=0)
+                    except Exception:
+                        ok = False
+                    if not ok:
+                        ctx.violation({'kind': 'planck-integer-wavelengths', 'waveunit': u, 'valueunit': vu, 'form': form}, {'T': T, 'wavelengths': wi}, case=None)
         for u, al in (('um', 'micron'), ('nm', 'nanometer'), ('m', 'meter')):
             w_u = w_m * 10.0 ** (-sp.EXP[u])
             for vu in FU:
